@@ -529,11 +529,17 @@ pub fn conc_op(kind: &str, conns: &[&str]) -> Option<(String, String)> {
     // `after=<j>`: this client connects before all the others but stays silent until
     // connection j has received everything it is owed
     let mut after: Vec<Option<usize>> = vec![];
+    let mut late: Vec<Option<usize>> = vec![];
     for c in conns {
         let f: Vec<&str> = c.split(' ').filter(|s| !s.is_empty()).collect();
         let svc = p_list(field("svc", &f), Svc::parse)?;
         let evs = p_list(field("r", &f), ReadEv::parse)?;
         after.push(match field("after", &f) {
+            "" => None,
+            j => Some(j.parse::<usize>().ok()?),
+        });
+        // `late=<j>`: this client connects only after connection j is over
+        late.push(match field("late", &f) {
             "" => None,
             j => Some(j.parse::<usize>().ok()?),
         });
@@ -553,7 +559,7 @@ pub fn conc_op(kind: &str, conns: &[&str]) -> Option<(String, String)> {
                 })
                 .collect()
         } else {
-            crate::gen::split_rtu_public(&data)?.into_iter().map(|(u, p)| (0, u, p)).collect()
+            crate::gen::rtu_frames_prefix(&data).into_iter().map(|(u, p)| (0, u, p)).collect()
         };
         let mut expect = 0usize;
         let mut ncalls = 0usize;
@@ -626,6 +632,7 @@ pub fn conc_op(kind: &str, conns: &[&str]) -> Option<(String, String)> {
         let scripts = scripts.clone();
         let pre = early[i].take();
         let wait_for = after[i];
+        let connect_after = late[i];
         let finished = finished.clone();
         handles.push(std::thread::spawn(move || -> Option<(SocketAddr, Vec<u8>)> {
             let done = |r: Option<(SocketAddr, Vec<u8>)>| {
@@ -634,6 +641,17 @@ pub fn conc_op(kind: &str, conns: &[&str]) -> Option<(String, String)> {
                 cv.notify_all();
                 r
             };
+            if let Some(j) = connect_after {
+                {
+                    let (m, cv) = &*finished;
+                    let mut g = m.lock().unwrap();
+                    while !g.get(j).copied().unwrap_or(true) {
+                        g = cv.wait(g).unwrap();
+                    }
+                }
+                // connection j's socket is closed by now; give its server task time to end
+                std::thread::sleep(Duration::from_millis(150));
+            }
             let mut s = match pre {
                 Some(s) => s,
                 None => match StdStream::connect(addr) {
